@@ -182,3 +182,21 @@ def hook_ghost(m):
         return n
     return {'nf': len(m._forward_hooks), 'np': len(m._forward_pre_hooks), 'nb': len(m._backward_hooks),
             'dls_f': count(m._forward_hooks, '_f_hook'), 'dls_p': count(m._forward_pre_hooks, '_fp_hook'), 'dls_b': count(m._backward_hooks, '_b_hook')}
+
+
+class ExtraOps(dict):
+    """replay value for deep_lift_shap(additional_nonlinear_ops=...): one more layer type with the generic
+    rescale rule"""
+
+    @staticmethod
+    def build():
+        import tangermeme.deep_lift_shap as D
+        d = ExtraOps()
+        d[torch.nn.Softsign] = D._nonlinear
+        return d
+
+    def to_json(self):
+        return {'__factory__': 'extra_ops'}
+
+
+FACTORIES['extra_ops'] = lambda d: ExtraOps.build()
